@@ -51,6 +51,7 @@ typedef struct grammar *G;
 extern FILE *yaep_verif_out;
 extern int yaep_verif_flags;
 extern const char *yaep_verif_prefix;
+extern unsigned yaep_verif_hash_mask;	/* weak-hash runs: only these bits of every hash value count */
 #endif
 
 /* ---------------------------------------------------------------- library allocator
@@ -467,6 +468,7 @@ do_parse (int h, const char *alloc_kind, const char *free_kind, int hookflags, i
   printf ("%sparse rc=%d amb=%d root=%s nse=%d code=%d\n", prefix, rc, amb, root ? "tree" : "null", nse, G_ERRCODE (handles[h]));
   if (rc != 0)
     { const char *m = G_ERRMSG (handles[h]); printf ("%smsg %d %s\n", prefix, (int) strlen (m), m); }
+  if (rc == 0 && root != NULL && notree) printf ("%snotree 1\n", prefix);
   if (rc == 0 && root != NULL && !notree)
     {
       int rid;
@@ -719,6 +721,9 @@ main (int argc, char **argv)
     else if (!strcmp (argv[i], "-n")) nofork = 1;
     else in = fopen (argv[i], "r");
   if (in == NULL) { perror ("open"); return 2; }
+#ifdef YAEP_VERIF
+  if (getenv ("YH_HASH_MASK") != NULL) yaep_verif_hash_mask = (unsigned) strtoul (getenv ("YH_HASH_MASK"), NULL, 0);
+#endif
   line = (char *) malloc (MAXLINE);
   while (fgets (line, MAXLINE, in) != NULL)
     {
